@@ -388,6 +388,11 @@ func main() {
 				ol += geo.Distance(outer[i], outer[i+1])
 				oh += geo.DistanceHaversine(outer[i], outer[i+1])
 			}
+			ul, uh := 0.0, 0.0
+			for i := 0; i+1 < len(ring); i++ {
+				ul += geo.Distance(ring[i], ring[i+1])
+				uh += geo.DistanceHaversine(ring[i], ring[i+1])
+			}
 			bb := orb.Bound{Min: orb.Point{10, 40}, Max: orb.Point{11.5, 42.5}}
 			bl, bh := 0.0, 0.0
 			for br, i := bb.ToRing(), 0; i+1 < len(br); i++ {
@@ -405,6 +410,11 @@ func main() {
 				{"polygon", orb.Polygon{outer, closed}, sl + ol, sh2 + oh},
 				{"multi-polygon", orb.MultiPolygon{{outer, closed}, {closed}}, 2*sl + ol, 2*sh2 + oh},
 				{"collection", orb.Collection{orb.Polygon{outer}, closed, bb, orb.Point{1, 1}, orb.Collection{orb.LineString(closed)}}, 2*sl + ol + bl, 2*sh2 + oh + bh},
+				// the unclosed spelling: one stored segment fewer, whatever the list is called
+				{"unclosed ring", ring, ul, uh},
+				{"polygon with the unclosed ring as a hole", orb.Polygon{outer, ring}, ul + ol, uh + oh},
+				{"multi-polygon of the unclosed ring", orb.MultiPolygon{{ring}, {outer}}, ul + ol, uh + oh},
+				{"collection of the unclosed ring", orb.Collection{ring, orb.Collection{orb.Polygon{ring}}}, 2 * ul, 2 * uh},
 			} {
 				if l := geo.Length(lc.g); rel(l, lc.wl) > 1e-12 && math.Abs(l-lc.wl) > 1e-6 {
 					c.Failf("length-sum", "Length(%s) = %v, the sum of segment distances is %v | %v", lc.what, l, lc.wl, ring)
